@@ -1,11 +1,20 @@
 #!/bin/bash
-# Evaluate every sub-agent worktree under /tmp/seed (see tools/seeded.py).
-# ONLY="C03 C07" restricts to those properties.
+# Evaluate sub-agent worktrees (see tools/seeded.py).
+#   tools/seeded_all.sh 1|2        round 1 (/tmp/seed) or round 2 (/tmp/seed2)
+#   ONLY="C03 C07" restricts to those properties.
 cd "$(dirname "$0")/.."
-for spec in "C01-offset-guard-lenient C01" "C02-vendor-skip-count C02" "C03-repeated-message-type C03" "C04-offset-u16-trunc C04" "C05-reserved-inside-version C05" "C06-zero-offset-flag C06" "C07-avp-length-u16-cast C07" "C08-offset-pad-extent-clamp C08" "C09-length-position-u16 C09" "C10-result-msg-strip-nul C10" "C11-align-pad-extra-block C11" "C12-align-pad-extra-block C12" "C13-reveal-len-off-by-one-clamped C13" "C14-control-guard-offset-bit C14" "C15-hidden-vendor-accepted C15" "C18-bytes-refusal-drains C18" "C19-threadlocal-scratch-leftover C19" "C20-hidden-vendor-not-named C20"; do
-  set -- $spec
-  if [ -n "${ONLY:-}" ] && [[ " $ONLY " != *" $2 "* ]]; then continue; fi
-  echo "=== $1"
-  python3 tools/seeded.py eval $1 $2 /tmp/seed/$2 2>&1 | grep -v WARNING | tail -4 | cut -c1-900
+ROUND="${1:-1}"
+if [ "$ROUND" = "1" ]; then
+  ROOT=/tmp/seed
+  SPECS="C01-offset-guard-lenient:C01 C02-vendor-skip-count:C02 C03-repeated-message-type:C03 C04-offset-u16-trunc:C04 C05-reserved-inside-version:C05 C06-zero-offset-flag:C06 C07-avp-length-u16-cast:C07 C08-offset-pad-extent-clamp:C08 C09-length-position-u16:C09 C10-result-msg-strip-nul:C10 C11-align-pad-extra-block:C11 C12-align-pad-extra-block:C12 C13-reveal-len-off-by-one-clamped:C13 C14-control-guard-offset-bit:C14 C15-hidden-vendor-accepted:C15 C18-bytes-refusal-drains:C18 C19-threadlocal-scratch-leftover:C19 C20-hidden-vendor-not-named:C20"
+else
+  ROOT=/tmp/seed2
+  SPECS="C01-resultcode-error-guard-weakened:C01 C02-stale-length-offset-check:C02 C03-avp-count-bound-8-octets:C03 C04-zero-offset-flag-omitted:C04 C05-hidden-vendor-accepted-2:C05 C06-header-length-from-get-length-chars:C06 C07-encoder-trusts-nonzero-length:C07 C08-reserved-flag-bit-leaks-into-length:C08 C09-length-bits-from-page-difference:C09 C10-zlb-stale-length:C10 C11-reveal-rejects-empty-value:C11 C12-hide-length-subfield-layout:C12 C13-reveal-lower-bound-lost:C13 C14-unused-rejects-slack-octets:C14 C15-unknown-avp-without-m-dropped:C15 C18-overwrite-at-zero-saturating-guard:C18 C19-global-strict-reserved-switch:C19 C20-bare-error-type-not-read:C20"
+fi
+for spec in $SPECS; do
+  name="${spec%%:*}"; prop="${spec##*:}"
+  if [ -n "${ONLY:-}" ] && [[ " $ONLY " != *" $prop "* ]]; then continue; fi
+  echo "=== $name"
+  python3 tools/seeded.py eval "$name" "$prop" "$ROOT/$prop" 2>&1 | grep -v WARNING | tail -4 | cut -c1-900
 done
 echo ALLDONE
